@@ -175,4 +175,95 @@ theorem frame_writeArraysMeta {n : Nat} (h : Heap) (m : Addr) (nodeMd edgeMd : L
   · exact (f1.trans f2).trans (frame_compute _ _ data hn2)
   · exact f1.trans f2
 
+theorem frame_allocAxes {n : Nat} (axes : List AxisSpec) :
+    ∀ h : Heap, n ≤ h.length → Frame n h (allocAxes h axes).1 := by
+  induction axes with
+  | nil => intro h _; exact Frame.refl _ _
+  | cons a t ih =>
+    intro h hn
+    obtain ⟨nm, mn, mx⟩ := a
+    unfold allocAxes
+    have f1 := frame_alloc (n := n) (.axis nm mn mx) hn
+    exact f1.trans (ih _ (Nat.le_trans hn f1.le))
+
+theorem frame_setAxes {n : Nat} (h : Heap) (m : Addr) (axes : List AxisSpec) (hn : n ≤ h.length)
+    (hm : n ≤ m) : Frame n h (setAxes h m axes) := by
+  unfold setAxes
+  split
+  · have f1 := frame_allocAxes (n := n) axes h hn
+    have f2 := frame_alloc (n := n) (.axesList (allocAxes h axes).2) (Nat.le_trans hn f1.le)
+    exact (f1.trans f2).trans (frame_set _ _ hm)
+  · exact Frame.refl _ _
+
+theorem frame_setDirected {n : Nat} (h : Heap) (m : Addr) (d : Bool) (hm : n ≤ m) :
+    Frame n h (setDirected h m d) := by
+  unfold setDirected
+  split
+  · exact frame_set _ _ hm
+  · exact Frame.refl _ _
+
+theorem frame_createOrUpdate {n : Nat} (h : Heap) (m : Option Addr) (d : Bool)
+    (axes : Option (List AxisSpec)) (hn : n ≤ h.length) :
+    Frame n h (createOrUpdateMetadata h m d axes).1 := by
+  unfold createOrUpdateMetadata
+  cases m with
+  | none =>
+    simp only
+    have f1 := frame_alloc (n := n) (.propsDict []) hn
+    have hn1 := Nat.le_trans hn f1.le
+    have f2 := frame_alloc (n := n) (.propsDict []) hn1
+    have hn2 := Nat.le_trans hn1 f2.le
+    have f3 := frame_alloc (n := n) (.geffMeta none (alloc h (.propsDict [])).2
+      (alloc (alloc h (.propsDict [])).1 (.propsDict [])).2 d) hn2
+    have hn3 := Nat.le_trans hn2 f3.le
+    cases axes with
+    | none => exact (f1.trans f2).trans f3
+    | some ax =>
+      exact ((f1.trans f2).trans f3).trans (frame_setAxes _ _ ax hn3 (by simpa using hn2))
+  | some m =>
+    simp only
+    split
+    · rename_i a0 np0 ep0 d0 hmeta
+      obtain ⟨f, hcase⟩ := deepcopyMeta_spec (n := n) h m hn
+      rcases hcase with ⟨_, hne⟩ | ⟨_, _, _, _, _, _, hm1, _⟩
+      · exact absurd hmeta (hne a0 np0 ep0 d0)
+      · have hn1 := Nat.le_trans hn f.le
+        have f2 := frame_setDirected (n := n) (deepcopyMeta h m).1 (deepcopyMeta h m).2 d hm1
+        cases axes with
+        | none => exact f.trans f2
+        | some ax =>
+          exact (f.trans f2).trans (frame_setAxes _ _ ax (Nat.le_trans hn1 f2.le) hm1)
+    · exact Frame.refl _ _
+
+theorem frame_updateMetadataAxes {n : Nat} (h : Heap) (m : Addr) (axes : List AxisSpec)
+    (hn : n ≤ h.length) : Frame n h (updateMetadataAxes h m axes).1 := by
+  unfold updateMetadataAxes
+  split
+  · rename_i a np ep d _
+    have f1 := frame_alloc (n := n) (.geffMeta a np ep d) hn
+    exact f1.trans (frame_setAxes _ _ axes (Nat.le_trans hn f1.le) (by simpa using hn))
+  · exact Frame.refl _ _
+
+theorem frame_writeArraysFull {n : Nat} (h : Heap) (m : Addr) (nodeMd edgeMd : List PropMd)
+    (have_ empty : Bool) (data : String → AxisData) (hn : n ≤ h.length) :
+    Frame n h (writeArraysFull h m nodeMd edgeMd have_ empty data).1 := by
+  unfold writeArraysFull
+  exact frame_writeArraysMeta h m _ edgeMd have_ _ hn
+
+theorem frame_backendWriteMeta {n : Nat} (h : Heap) (m : Option Addr) (d : Bool)
+    (createAxes override : Option (List AxisSpec)) (nodeMd edgeMd : List PropMd)
+    (have_ empty : Bool) (data : String → AxisData) (hn : n ≤ h.length) :
+    Frame n h (backendWriteMeta h m d createAxes override nodeMd edgeMd have_ empty data).1 := by
+  unfold backendWriteMeta
+  have f1 := frame_createOrUpdate (n := n) h m d createAxes hn
+  have hn1 := Nat.le_trans hn f1.le
+  cases override with
+  | none =>
+    exact f1.trans (frame_writeArraysFull _ _ nodeMd edgeMd have_ empty data hn1)
+  | some ax =>
+    have f2 := frame_updateMetadataAxes (n := n) (createOrUpdateMetadata h m d createAxes).1
+      (createOrUpdateMetadata h m d createAxes).2 ax hn1
+    exact (f1.trans f2).trans
+      (frame_writeArraysFull _ _ nodeMd edgeMd have_ empty data (Nat.le_trans hn1 f2.le))
+
 end Geff.MetaHeap
